@@ -6,7 +6,6 @@ package handshake
 // RFC 6347 4.2.2: msg_type(1) length(3) message_seq(2) fragment_offset(3) fragment_length(3).
 
 //@ func Header.Marshal
-//@ inline
 //@ ensures ok: old(h.Length) <= 0xFFFFFF && old(h.FragmentOffset) <= 0xFFFFFF && old(h.FragmentLength) <= 0xFFFFFF ==> result1 == nil
 //@ ensures size: result1 == nil ==> len(result0) == 12
 //@ ensures layout-type: result1 == nil ==> result0[0] == byte(h.Type)
@@ -19,7 +18,6 @@ package handshake
 //@ end
 
 //@ func Header.Unmarshal
-//@ inline
 //@ ensures short: len(data) < 12 ==> result != nil
 //@ ensures ok: len(data) >= 12 ==> result == nil
 //@ ensures type: result == nil ==> h.Type == Type(data[0])
